@@ -1,5 +1,5 @@
 """C08 — series-parallel test: verdict, reductions, reduced matrix, violators, separations."""
-import vlib, gen
+import os, vlib, gen
 from vlib import mat_line, all_matrices, rand_matrix
 
 RULE = ("CMRspTestBinary/Ternary and CMRspDecomposeBinary/Ternary on all {0,1} resp. {-1,0,1} matrices with m*n <= "
@@ -116,6 +116,19 @@ def sp_lines(ctx, label):
         m, n = 2 + rng.below(6), 2 + rng.below(6)
         M = rand_matrix(rng, m, n, (-1, 0, 1) if tern else (0, 1), 2 + rng.below(5), 10)
         add(tern, M, m, n)
+    # graphic / cographic matrices of 3-connected graphs (binary and, with the ternary entry points, as ternary input): not
+    # series-parallel, with 2-separations that appear only after reductions - the wheel search has to restrict itself to a
+    # part of a 2-separation several times
+    for _ in range(600 if q else 12000):
+        nn, E = gen.threeconn_graph(rng)
+        M, _w = gen.graph_instance(rng, nn, len(E), False, loops=False, edges=E)
+        if not M or not M[0]:
+            continue
+        if rng.below(2):
+            M = [list(r) for r in zip(*M)]
+        if rng.below(3) == 0:
+            M = gen.add_sp_lines(rng, M, 1 + rng.below(4), False)
+        add(rng.below(2), M)
     # every value of maxNumReductions from 0 to m + n (so also exactly the number of reductions the matrix admits, and
     # one less / one more): SIZE_MAX must be reported exactly when the bound is exceeded
     for _ in range(250 if q else 4000):
@@ -155,6 +168,8 @@ def run(ctx):
     ctx.stream("leaf", gen.leaf_lines(ctx.rng.fork("leaf"), (2,), 2000 if ctx.quick else 100000),
                "leaf functions (projectSignedHash): compiled C vs. the definition translated from the C text vs. the specification",
                describe=lambda c: gen.LEAF_CODES.get(c, str(c)))
+    corpus = [l.strip() for l in open(os.path.join(vlib.VERIF, "tools", "corpus", "C08.sp.txt")) if l.strip() and not l.startswith("#")]
+    ctx.stream("sp", corpus, "sp: corpus of earlier failures", describe=lambda c: CODES.get(c, str(c)), nontrivial=nontrivial, keyfn=keyfn)
     lines = sp_lines(ctx, "main")
     ctx.stream("sp", lines, "sp: real hash range", describe=lambda c: CODES.get(c, str(c)), nontrivial=nontrivial, keyfn=keyfn)
     ranges = HASH_RANGES[:2] if ctx.quick else HASH_RANGES
